@@ -51,14 +51,14 @@ func TestBlockStringSpecExample(t *testing.T) {
 
 func TestStringEscapes(t *testing.T) {
 	for in, want := range map[string]string{
-		`""`:                             "",
-		`"a\"b\\c\/d\b\f\n\r\t"`:         "a\"b\\c/d\b\f\n\r\t",
-		`"\u00e9\u0041"`:               "\xc3\xa9A",
-		`"\uD83D\uDE00"`:               "\xf0\x9f\x98\x80",
-		`"\ud83d\ude00x"`:              "\xf0\x9f\x98\x80x",
-		`"\u{1F600}\u{41}\u{00e9}"`:   "\xf0\x9f\x98\x80A\xc3\xa9",
-		"\"tab\there\"":                  "tab\there",
-		`"\u0000"`:                      "\x00",
+		`""`:                        "",
+		`"a\"b\\c\/d\b\f\n\r\t"`:    "a\"b\\c/d\b\f\n\r\t",
+		`"\u00e9\u0041"`:            "\xc3\xa9A",
+		`"\uD83D\uDE00"`:            "\xf0\x9f\x98\x80",
+		`"\ud83d\ude00x"`:           "\xf0\x9f\x98\x80x",
+		`"\u{1F600}\u{41}\u{00e9}"`: "\xf0\x9f\x98\x80A\xc3\xa9",
+		"\"tab\there\"":             "tab\there",
+		`"\u0000"`:                  "\x00",
 	} {
 		v, err := ParseLiteral(in, LexOpts{})
 		if err != nil {
